@@ -106,6 +106,10 @@ func newSdRig(pool bool) (*sdRig, error) {
 	}
 	sr := &sdRig{srvRig: r, serveRet: make(chan error, 1)}
 	s.Plugins.Add(sdPlugin{&sr.slowClose})
+	// an application's shutdown / restart callbacks that look at the server they are handed (whether,
+	// when and how often the server runs them is its business; they must never make Shutdown hang)
+	s.RegisterOnShutdown(func(s *server.Server) { _ = s.ActiveClientConn(); _ = s.Address() })
+	s.RegisterOnRestart(func(s *server.Server) { _ = s.ActiveClientConn(); _ = s.Address() })
 	ln, err := net.Listen("tcp", "127.0.0.1:0")
 	if err != nil {
 		return nil, err
